@@ -82,7 +82,22 @@ fn one_case(ctx: &Ctx, case: u64, l: &mut Local) {
     let shape = gen::shape_fingerprint(&s.u) ^ cfg.bits().rotate_left(40);
     let base_input = || json!({"config": cfg.describe(), "claims": s.u, "strategy": s.strat.describe(), "genuine_disclosures": issued.by.values().map(|d| d.text.clone()).collect::<Vec<_>>()});
     l.sample(case, || json!({"config": cfg.describe(), "claims": s.u, "strategy": s.strat.describe(), "disclosures": genuine.len()}));
-    let resolver = Resolver::Fixed(cfg.alg, 0);
+    // in a quarter of the cases the resolver itself verifies another (small, honest) presentation on
+    // the same thread before it hands out the key; that must not disturb the outer verification
+    let resolver = if case % 4 == 3 {
+        let inner_claims = json!({"iss": "https://issuer.example/A", "exp": api::now() + 3600, "trusted": ["x", {"y": 1}], "z": {"w": null}});
+        let inner_strat = gen::gen_strategy(&mut r, &inner_claims, StratKind::AllLevels);
+        let mut inner_issuer = api::new_issuer(cfg.alg, 0, true);
+        match api::issue(&mut inner_issuer, &inner_claims, &inner_strat, None, true, cfg.fmt) {
+            Outcome::Ok(sd) => {
+                l.count("resolver.re-entrant");
+                Resolver::Reentrant(cfg.alg, 0, sd, cfg.fmt)
+            }
+            _ => Resolver::Fixed(cfg.alg, 0),
+        }
+    } else {
+        Resolver::Fixed(cfg.alg, 0)
+    };
 
     // expected view for an arbitrary list
     let expected_for = |list: &[String]| -> (Value, BTreeSet<Path>) {
